@@ -1032,6 +1032,27 @@ impl<'a, 't> Gen<'a, 't> {
         let mut trace = Vec::new();
         for _ in 0..ncycles {
             let mut writes = Vec::new();
+            // boundary burst (switch off = nothing consumed, historical behaviour): every
+            // numeric input variable gets one of its type's extremes / -1 / 0 / 1
+            if self.cfg.trace_boundary_bursts && !targets.is_empty() && self.r.chance(1, 4) {
+                for (inst, var, ty) in targets.clone() {
+                    let Ty::Elem(e) = ty else {
+                        continue;
+                    };
+                    let value = if e.is_int() {
+                        let (lo, hi) = e.int_range();
+                        let set = [lo, (-1i128).max(lo), hi, 1, 0, (lo + 1).min(hi), hi - 1];
+                        Val::Int(e, set[self.r.weighted(&[4, 4, 3, 2, 1, 1, 1])])
+                    } else if e == Elem::Real {
+                        Val::real([f32::MAX, -f32::MAX, 1.0, -1.0, 0.0, f32::MIN_POSITIVE, 2.0][self.r.pick(7)])
+                    } else if e == Elem::LReal {
+                        Val::lreal([f64::MAX, -f64::MAX, 1.0, -1.0, 0.0, f64::MIN_POSITIVE, 2.0][self.r.pick(7)])
+                    } else {
+                        continue;
+                    };
+                    writes.push(InputWrite { instance: inst, var, value });
+                }
+            }
             if !targets.is_empty() {
                 let n = self.r.weighted(&[3, 3, 2, 1]);
                 for _ in 0..n {
